@@ -53,7 +53,8 @@ MATRIX.update({
     ("brl", "rel_long"): 0x82,
 })
 
-BRANCHES = {"bcc": 0x90, "bcs": 0xB0, "beq": 0xF0, "bmi": 0x30, "bne": 0xD0, "bpl": 0x10, "bra": 0x80, "bvc": 0x50, "bvs": 0x70}
+# incl. the WDC alias mnemonics BLT (= BCC) and BGE (= BCS)
+BRANCHES = {"bcc": 0x90, "bcs": 0xB0, "beq": 0xF0, "bmi": 0x30, "bne": 0xD0, "bpl": 0x10, "bra": 0x80, "bvc": 0x50, "bvs": 0x70, "blt": 0x90, "bge": 0xB0}
 for _m, _o in BRANCHES.items():
     MATRIX[(_m, "rel")] = _o
 
@@ -64,11 +65,13 @@ IMPLIED = {
     "sec": 0x38, "sed": 0xF8, "sei": 0x78, "stp": 0xDB, "tax": 0xAA, "tay": 0xA8, "tcd": 0x5B, "tcs": 0x1B, "tdc": 0x7B,
     "tsc": 0x3B, "tsx": 0xBA, "txa": 0x8A, "txs": 0x9A, "txy": 0x9B, "tya": 0x98, "tyx": 0xBB, "wai": 0xCB, "xba": 0xEB, "xce": 0xFB,
 }
+# WDC alternative mnemonics for register transfers
+IMPLIED.update({"tas": 0x1B, "tsa": 0x3B, "swa": 0xEB, "tad": 0x5B, "tda": 0x7B})
 for _m, _o in IMPLIED.items():
     MATRIX[(_m, "imp")] = _o
 
 MNEMONICS = sorted({m for m, _ in MATRIX})
-assert len(set(MATRIX.values())) == 256 - 0, (len(set(MATRIX.values())),)  # every opcode byte exactly once (jml/jsl alias jmp/jsr long)
+assert len(set(MATRIX.values())) == 256, (len(set(MATRIX.values())),)  # every opcode byte is defined (alias mnemonics share bytes)
 
 # immediates whose width follows the M flag (8 or 16 bit) / the X flag / fixed 8 bit
 IMM_M = {"ora", "and", "eor", "adc", "lda", "cmp", "sbc", "bit"}
